@@ -4,7 +4,7 @@
 set -e
 cd "$(dirname "$0")"
 cd coq
-coq_makefile -f _CoqProject -o Makefile >/dev/null
+(echo "-Q theories Cstl"; ls theories/*.v) > _CoqProject; coq_makefile -f _CoqProject -o Makefile >/dev/null
 timeout 3000 make -j16
 cd ..
 python3 - <<'PY'
